@@ -52,6 +52,14 @@ PROPS = {
         "assumptions": ["encoding/json emits exactly the tagged fields (tags tied by regenerated facts)"],
         "trusted_base": ["txpk record of the Semtech protocol transcribed as Props/C17.lean specTxpk"],
     },
+    "C18": {
+        "theorems": thms(P + "C18", ["devAddr_roundtrip", "eui_int64_roundtrip", "eui_string_roundtrip", "key_hex_roundtrip", "ofHexChars_toHexChars"]),
+        "ties": thms(T + "Text", ["tie_devAddrParser"]),
+        "engines": ["txt", "store"],
+        "assumptions": ["SQLite returns the column values it was given (typing, durability trusted); base64/hex library codecs trusted",
+                        "the row-store behaviour (create/update/delete/list, reopen) is decided by the store engine against an abstract keyed-map oracle; the Lean theorems cover every textual/integer column encoding"],
+        "trusted_base": ["fmt %08x / %02x, strconv.ParseUint, encoding/hex transcribed as Model/Text.lean"],
+    },
     "C19": {
         "theorems": {**thms(P + "C19", ["C19_counter_bits", "C19_injective", "C19_netid_embedded", "C19_prefix"]),
                      **thms(P + "C19Alloc", ["inv_step", "C19_never_twice"])},
@@ -108,6 +116,11 @@ MANIFEST_TEXT = {
         "level": "Lean theorems: the PULL_RESP goes to the uplink's host and the port of the latest PULL_DATA of that gateway (induction over arbitrary datagram sequences), txpk = independent spec record with tmst = (clock + delay*10^6) mod 2^32 always present. Tied by regenerated JSON tags (no omitempty on tmst), frequency table, multiplier and encoder delays (5 / 1), and by real PULL_RESP datagrams parsed field by field incl. wrapping clocks.",
         "note": "JSON encoder trusted given the tags; delay values 1/5 come from the encoder (tied by fact), the pipeline-level delay choice is covered with the pipeline engine",
         "technique": "Lean 4 proof (induction over datagram sequences, arithmetic mod 2^32) + regenerated-facts tie + trace comparison",
+    },
+    "C18": {
+        "level": "Lean theorems for all values: every 32-bit device address (top bit included) parses back from its %08x text, every EUI from its signed-64-bit and dashed-hex forms, every key from its hex text. The store itself (all six entity kinds, create/update/delete/list through the storage API and the service implementation, reopen at random positions) is decided by operation sequences against an abstract keyed-map oracle; the textual codecs additionally by correspondence with the Lean model; the address parser's function/base/size by a regenerated fact.",
+        "note": "SQLite durability and typing trusted; the row-store refinement is not a Lean theorem (oracle-based exploration of sequences), the encodings are",
+        "technique": "Lean 4 proof (round-trip laws over all values: decide on hex digits + omega) + regenerated-facts tie + differential/oracle sequences on the real store",
     },
     "C19": {
         "level": "Lean theorems: for MA-L/M/S and every admissible network id the EUI's low 25 bits are the counter (hence C19_injective over the whole advertised key space), the prefix bits are the MA's, the network id is embedded; allocator transition system (any number of requesters, reservations, hand-outs, restarts, crashes before/after commit): C19_never_twice by invariant induction over unbounded event lists. Tied by regenerated maxID / MA sizes / NetID limits / block sizes, 40k packing cases and real KeyGenerator runs (8 concurrent requesters, restart, crash at each of the four allocator gates, last blocks of the key space for odd and even network ids).",
